@@ -40,7 +40,7 @@ def drive(rec):
     if k == "spell":
         text = rec["text"]
         routes = [route(lambda: Element[text]), route(lambda: Element.from_string(text))]
-        if rec["sk"] in ("label",) or (rec["sk"] == "bad" and rec["a"] > 0):
+        if rec["sk"] in ("label", "badlong") or (rec["sk"] == "bad" and rec["a"] > 0):
             routes.append(route(lambda: Element.from_label(text)))
         t["routes"] = routes
     elif k == "int":
@@ -76,11 +76,14 @@ def drive(rec):
         t["rows"] = rows
     elif k == "sort":
         zs = rec["zs"]
-        t.update(exc="", sorted=[], formula="")
+        t.update(exc="", sorted=[], formula="", formula_sub="")
         try:
             els = [Element.from_atomic_number(z) for z in zs]
             t["sorted"] = [int(e.atomic_number) for e in sorted(els)]
             t["formula"] = chemical_formula(els)
+            sub = chemical_formula(els, subscript=True)
+            t["formula_sub"] = "".join(chr(ord("0") + ord(ch) - 0x2080) if 0x2080 <= ord(ch) <= 0x2089 else (ch if ord(ch) < 128 else "?")
+                                       for ch in sub)
         except Exception as ex:
             t["exc"] = type(ex).__name__
     return t
@@ -108,6 +111,9 @@ def run(ctx):
         m = rng.randint(1, 14)
         pool = [1, 6, 7, 8] * 3 + list(range(1, 104))
         recs.append({"k": "sort", "zs": [rng.choice(pool) for _ in range(m)], "src": "random"})
+    for _ in range(ctx.pick(60, 600)):        # formulas with counts of 10 and more
+        few = rng.sample(range(1, 104), rng.randint(1, 4)) + [6, 1]
+        recs.append({"k": "sort", "zs": [rng.choice(few) for _ in range(rng.randint(25, 70))], "src": "random-large-counts"})
     traces = pool_map(drive, recs)
     ctx.validate("trace/Trace_Element.tla", traces, batch=30000, timeout=1200)
     ctx.exhaustive = True
